@@ -44,9 +44,16 @@ def gen_script(rnd, tier):
         cbases[c] = bs
         L.append("class %d : %s" % (c, " ".join(map(str, bs))))
 
+    named = {}          # class -> interfaces named by class declarations so far
+
+    def ancestors(c):
+        return c03.reach(cbases, c) - {0}
+
     def new_obj():
         o = len(objs) + 1
         c = rnd.choice(list(cbases))
+        if objs and rnd.random() < 0.5:
+            c = rnd.choice(list(objs.values()))          # several instances of one class share declarations
         objs[o] = c
         L.append("inst %d : %d" % (o, c))
 
@@ -65,6 +72,37 @@ def gen_script(rnd, tier):
     new_class()
     new_obj()
     last_tuple = {}
+    if rnd.random() < 0.3:
+        # shared-declaration scenarios: the same direct declaration made on two instances of one class, with a class
+        # declaration change on the class or one of its ancestors in between (what is redundant changes under a
+        # declaration object that is shared through a cache)
+        for _ in range(rnd.randint(1, 3)):
+            new_class()
+        for rounds in range(rnd.randint(1, 4)):
+            k = rnd.choice(list(cbases))
+            chain = sorted(ancestors(k))
+            o1 = len(objs) + 1
+            objs[o1] = k
+            L.append("inst %d : %d" % (o1, k))
+            o2 = len(objs) + 1
+            objs[o2] = k
+            L.append("inst %d : %d" % (o2, k))
+            t = rnd.sample(range(1, n + 1), rnd.randint(1, min(2, n)))
+            if rnd.random() < 0.7:
+                L.append("add %d : %s" % (rnd.choice(chain), " ".join(map(str, t if rnd.random() < 0.7 else rnd.sample(range(1, n + 1), 1)))))
+                observe()
+            L.append("dp %d : %s" % (o1, " ".join(map(str, t))))
+            observe()
+            a = rnd.choice(chain)
+            xs = rnd.sample(range(1, n + 1), rnd.randint(1, min(2, n)))
+            kind = rnd.choice(["only", "only", "add", "first"])
+            L.append("%s %d : %s" % (kind, a, " ".join(map(str, xs[:1] if kind == "first" else xs))))
+            observe()
+            if rnd.random() < 0.3:
+                L.append("dp %d : %s" % (o1, " ".join(map(str, rnd.sample(range(1, n + 1), 1)))))   # first holder lets go
+                observe()
+            L.append("dp %d : %s" % (o2, " ".join(map(str, t))))
+            observe()
     for step in range(rnd.randint(4, 45 if big else 25)):
         r = rnd.random()
         if r < 0.1:
@@ -73,8 +111,12 @@ def gen_script(rnd, tier):
             new_obj()
         elif r < 0.52:
             c = rnd.choice(list(cbases))
+            if objs and rnd.random() < 0.5:
+                # a class some live instance inherits from: the declaration change reaches existing objects
+                c = rnd.choice(sorted(ancestors(rnd.choice(list(objs.values())))))
             xs = rnd.sample(range(1, n + 1), rnd.randint(1, min(3, n)))
-            kind = rnd.choice(["add", "add", "only", "first", "add d", "only d"])
+            kind = rnd.choice(["add", "add", "only", "only", "first", "add d", "only d"])
+            named.setdefault(c, []).extend(xs)
             if kind == "first":
                 xs = xs[:1]
             L.append("%s %d%s : %s" % (kind.split()[0], c, " d" if kind.endswith(" d") else "", " ".join(map(str, xs))))
@@ -84,6 +126,10 @@ def gen_script(rnd, tier):
             kind = rnd.choice(["dp", "dp", "dp", "also", "nl"])
             # instances sharing a declaration tuple: reuse the tuple another instance of the same class used
             key = objs[o]
+            inherited = sorted({x for a in ancestors(key) for x in named.get(a, [])})
+            if inherited and rnd.random() < 0.4:
+                # name what the class (chain) declares: redundant now, perhaps not after a later class declaration
+                xs = rnd.sample(inherited, min(len(inherited), rnd.randint(1, 2)))
             if kind == "dp" and key in last_tuple and rnd.random() < 0.5:
                 xs = last_tuple[key]
             if kind == "dp":
